@@ -77,6 +77,7 @@ func (idx *BigIndexWriter) AddRow(values map[string]string) (uint32, error) {
 		if err != nil {
 			return 0, fmt.Errorf("failed to commit: %w", err)
 		}
+		verifPoint("bigwriter.temp.commit")
 
 		idx.tempTx, err = idx.tempDB.Begin(true)
 		if err != nil {
@@ -200,6 +201,7 @@ func (idx *BigIndexWriter) Flush() error {
 	if err := tx.Commit(); err != nil {
 		return fmt.Errorf("failed to commit changes: %w", err)
 	}
+	verifPoint("bigwriter.commit")
 
 	return nil
 }
